@@ -39,10 +39,15 @@ def verify(wt, vdir, seed_id):
     meta = json.load(open(os.path.join(vdir, "meta.json")))
     head = open(demo).read(3000)
     m = re.search(r"((?:pkg|cmd)/[\w/]+/\w+_test\.go)", head)
-    if not m:
-        print("cannot find demo placement"); return 1
-    demo_dst = m.group(1)
-    m2 = re.search(r"-run '?\"?(\w+)", head)
+    if m:
+        demo_dst = m.group(1)
+    else:
+        md = re.search(r"((?:pkg|cmd)/[\w/]+)/", head)
+        mf = re.search(r"(\w+_test\.go)", head)
+        if not md or not mf:
+            print("cannot find demo placement"); return 1
+        demo_dst = md.group(1) + "/" + mf.group(1)
+    m2 = re.search(r"go test[^\n]*-run '?\"?(\w+)", head)
     demo_run = m2.group(1) if m2 else "Test"
     race = "-race " if "-race" in head else ""
     pkgs = sorted(set(os.path.dirname(f) for f in re.findall(r"^diff --git a/(\S+)", open(patch).read(), re.M)))
